@@ -69,11 +69,16 @@ def gen_attrs(rng, peer, peers):
             "comms": rng.sample(c10.COMMS, rng.choice([0, 0, 1, 2])), "orig": None, "cl": []}
 
 
-def gen_case(rng):
+def gen_case(rng, ap=False):
     n = rng.choice([2, 3, 3, 4])
     peers = [simlib.Peer("p%d" % i, "10.0.0.%d" % (i + 1), 65001 + i, "ebgp") for i in range(n)]
+    if ap:
+        # one more peer that is sent several paths per destination (ADD-PATH; send-max 8, above the number of sources, so that
+        # WHICH paths are sent does not depend on the history): outside Reset.Model, decided by the metamorphic oracle (what
+        # it holds after the resets = what a fresh run under the final policy gives it)
+        peers.append(simlib.Peer("p%d" % n, "10.0.0.%d" % (n + 1), 65001 + n, "ebgp", sendmax=8))
     pool = rng.sample(PFXS, rng.choice([2, 3, 4]))
-    c = {"peers": peers, "imp0": gen_pol(rng) if rng.random() < 0.4 else ACCEPT_ALL, "exp0": gen_pol(rng) if rng.random() < 0.4 else ACCEPT_ALL}
+    c = {"peers": peers, "imp0": gen_pol(rng) if rng.random() < 0.4 else ACCEPT_ALL, "exp0": gen_pol(rng) if rng.random() < 0.4 else ACCEPT_ALL, "ap": ap}
     ev = []
     for _ in range(rng.choice([6, 10, 16, 24])):
         r = rng.random()
@@ -98,6 +103,16 @@ def gen_case(rng):
             ev.append(("obs",))
         else:
             ev.append(("probe", rng.choice(["in", "out", "out"])))
+    if ap and rng.random() < 0.5:
+        # directed: two sources announce one destination with different communities, the ADD-PATH peer holds both; then the
+        # export policy starts to reject ONE of them (by its community, its origin or its AS_PATH length) and the peer is reset
+        pf = rng.choice(pool)
+        s1, s2 = rng.sample(peers[:-1], 2)
+        a1 = dict(gen_attrs(rng, s1, peers), comms=[c10.COMMS[0]], origin=0, aspath=[s1.asn, 65020])
+        a2 = dict(gen_attrs(rng, s2, peers), comms=[c10.COMMS[1]], origin=2, aspath=[s2.asn])
+        cond = rng.choice([("comm", 0, [c10.COMMS[0]]), ("origin", 2), ("aslen", 0, 2), ("comm", 0, [c10.COMMS[1]])])
+        ev += [("ann", s1.name, pf, a1), ("ann", s2.name, pf, a2), ("obs",), ("setexp", {"default": True, "policies": [[([cond], [], False)]]}),
+               (rng.choice(["softout", "softout", "refresh"]), peers[-1].name), ("obs",)]
     if rng.random() < 0.15 and ev:
         # a directed block: the policy flips between two settings with a refresh / reset of one peer after each flip, so that
         # a route-refresh or reset is the FIRST thing that tells the peer about a route (or takes one away)
@@ -117,6 +132,14 @@ def gen_case(rng):
         i = rng.randrange(len(ev) // 2, len(ev) + 1)
         ev[i:i] = blk
     how = rng.random()
+    if ap and rng.random() < 0.6:
+        # export side only: the import policy never changes in this scenario, so a reset out (or a refresh) of every peer
+        # alone must already give what a fresh run gives -- no soft reset in that would repair a missed withdrawal on the way
+        ev = [e for e in ev if e[0] not in ("setimp",) and not (e[0] == "probe" and e[1] == "in")]
+        for _ in range(2):
+            ev += ([("softout", "all")] if how < 0.6 else [(rng.choice(["softout", "refresh"]), q.name) for q in peers]) + [("obs",)]
+        c["events"] = ev
+        return c
     for _ in range(2):
         if how < 0.5:
             ev += [("softin", "all"), ("softout", "all"), ("obs",)]
@@ -136,7 +159,7 @@ def fresh_of(c):
             imp = e[1]
         elif e[0] == "setexp":
             exp = e[1]
-    return {"peers": c["peers"], "imp0": imp, "exp0": exp, "events": [e for e in c["events"] if e[0] in ("ann", "wd", "sleep")] + [("probe", "out")], "is_fresh": True}
+    return {"peers": c["peers"], "imp0": imp, "exp0": exp, "events": [e for e in c["events"] if e[0] in ("ann", "wd", "sleep")] + [("probe", "out")], "is_fresh": True, "ap": c.get("ap")}
 
 
 # ---------------------------------------------------------------- lines
@@ -175,7 +198,7 @@ def sim_line(c):
         steps.append("(policy import %s)" % pol_sx(c["imp0"]))
     if c["exp0"] is not ACCEPT_ALL:
         steps.append("(policy export %s)" % pol_sx(c["exp0"]))
-    steps += ["(up %s)" % p.name for p in c["peers"]]
+    steps += ["(up %s%s)" % (p.name, " ap=1" if p.sendmax else "") for p in c["peers"]]
     for e in c["events"]:
         k = e[0]
         if k == "ann":
@@ -196,7 +219,7 @@ def sim_line(c):
             steps.append("(obs)")
         elif k == "probe":
             steps.append("(obs) (soft%s all) (obs)" % e[1])
-    peers_sx = " ".join("(%s %s %d)" % (p.name, p.addr, p.asn) for p in c["peers"])
+    peers_sx = " ".join("(%s %s %d%s)" % (p.name, p.addr, p.asn, " apsend=%d" % p.sendmax if p.sendmax else "") for p in c["peers"])
     return "(sim (global %d %s sync) (peers %s) (steps %s))" % (LOCAL_AS, ROUTER_ID, peers_sx, " ".join(steps))
 
 
@@ -284,7 +307,13 @@ def canon_impl(c, out):
             pd = o["peers"].get(p.name, {})
             if pd.get("state") != "established":
                 return None
-            d["peers"][p.name] = {"view": {k.split("#")[0]: v for k, v in pd.get("view", {}).items()},
+            view = {}
+            for k, v in sorted(pd.get("view", {}).items()):
+                # an ADD-PATH peer holds several routes per destination: the multiset of what it holds (the identifiers are
+                # not compared: a fresh run numbers its paths differently)
+                pf = k.split("#")[0]
+                view[pf] = v if pf not in view else " || ".join(sorted(view[pf].split(" || ") + [v]))
+            d["peers"][p.name] = {"view": view,
                                   "adjin": o["adjraw"][p.name] if "adjraw" in o else {e[0]: e[2] for e in o["adjin_raw"].get(p.name, [])}}
         for pf, paths in o["rib"].items():
             d["rib"][pf] = sorted([q["src"], q["attrs"]] for q in paths)
@@ -442,7 +471,7 @@ def run(ctx):
     proof = core.coq_properties("C15")
     ctx.say("proof stage: ok=%s theorems=%d audit=%d (%.1fs)" % (proof["ok"], len(proof["theorems"]), len(proof["audit"]), proof.get("wall_s", 0)))
     n = ctx.scale(1200, 30000)
-    cases = [gen_case(ctx.rng) for _ in range(n)]
+    cases = [gen_case(ctx.rng) for _ in range(n)] + [gen_case(ctx.rng, ap=True) for _ in range(n // 3)]
     okg, logg, impl = core.go_build("sim", test=True)
     _impl[0] = impl
     fresh_cases = [fresh_of(c) for c in cases[::4]]
@@ -456,7 +485,7 @@ def run(ctx):
 
     def more():
         return [gen_case(ctx.rng) for _ in range(n)]
-    cov = core.differential(ctx, "c15", proof, cases, sim_line, oracle, norm_impl=norm_impl, norm_model=norm_model, model_line_of=model_line,
+    cov = core.differential(ctx, "c15", proof, cases, sim_line, oracle, norm_impl=norm_impl, norm_model=norm_model, model_line_of=model_line, model_applies=lambda c: not c.get("ap"),
                             shrink_candidates=shrink_candidates,
                             nontrivial=lambda c: any(e[0] in ("setimp", "setexp") for e in c["events"]) and sum(1 for e in c["events"] if e[0] == "ann") >= 2,
                             more_cases=more,
@@ -481,7 +510,7 @@ def run(ctx):
                                                "the metamorphic oracle of checks/c15.py compares two runs of the implementation"],
     })
     return ctx.finish(pc, ["global import/export policy only: route-server clients (per-peer policy tables) are NOT covered",
-                           "eBGP peers only; sessions stay established; IPv4 unicast; no ADD-PATH",
+                           "eBGP peers only; sessions stay established; IPv4 unicast; ADD-PATH is outside Reset.Model: a quarter of the scenarios have one ADD-PATH send peer (send-max above the number of sources), decided by the metamorphic oracle only",
                            "next-hop and route-type conditions are not generated (outside Reset.Concrete)",
                            "one event at a time: a reset racing with route changes on another goroutine (peer.routeRefreshInProgress) is NOT explored; "
                            "the theorems cover every sequential interleaving of route events, policy changes and resets",
